@@ -62,3 +62,30 @@ func init() {
 			"\tc.replace = true\n\tc.processor.callbacks = append(c.processor.callbacks, c)\n\treturn c.processor.compile()", "\tc.replace = true\n\tproc := c.processor\n\tproc.callbacks = append(proc.callbacks, c)\n\treturn proc.compile()"}}},
 	)
 }
+
+// further behaviour-preserving refactors of rule-dense functions
+func init() {
+	addMutants(
+		Mutant{Name: "n91-commit-or-rollback-early-returns", Property: "*", Rule: "NEUTRAL", Edits: []Edit{{"callbacks/transaction.go",
+			"\tif !db.Config.SkipDefaultTransaction {\n\t\tif _, ok := db.InstanceGet(\"gorm:started_transaction\"); ok {\n\t\t\tif db.Error != nil {\n\t\t\t\tdb.Rollback()\n\t\t\t} else {\n\t\t\t\tdb.Commit()\n\t\t\t}\n\n\t\t\tdb.Statement.ConnPool = db.ConnPool\n\t\t}\n\t}",
+			"\tif db.Config.SkipDefaultTransaction {\n\t\treturn\n\t}\n\tif _, ok := db.InstanceGet(\"gorm:started_transaction\"); !ok {\n\t\treturn\n\t}\n\tif db.Error != nil {\n\t\tdb.Rollback()\n\t} else {\n\t\tdb.Commit()\n\t}\n\n\tdb.Statement.ConnPool = db.ConnPool"}}},
+		Mutant{Name: "n92-begin-transaction-switch-on-error", Property: "*", Rule: "NEUTRAL", Edits: []Edit{{"callbacks/transaction.go",
+			"\t\tif tx := db.Begin(); tx.Error == nil {\n\t\t\tdb.Statement.ConnPool = tx.Statement.ConnPool\n\t\t\tdb.InstanceSet(\"gorm:started_transaction\", true)\n\t\t} else if tx.Error == gorm.ErrInvalidTransaction {\n\t\t\ttx.Error = nil\n\t\t} else {\n\t\t\tdb.Error = tx.Error\n\t\t}",
+			"\t\ttx := db.Begin()\n\t\tswitch {\n\t\tcase tx.Error == nil:\n\t\t\tdb.Statement.ConnPool = tx.Statement.ConnPool\n\t\t\tdb.InstanceSet(\"gorm:started_transaction\", true)\n\t\tcase tx.Error == gorm.ErrInvalidTransaction:\n\t\t\ttx.Error = nil\n\t\tdefault:\n\t\t\tdb.Error = tx.Error\n\t\t}"}}},
+		Mutant{Name: "n93-missing-where-guard-flattened", Property: "*", Rule: "NEUTRAL", Edits: []Edit{{"callbacks/helper.go",
+			"\t\twhere, withCondition := db.Statement.Clauses[\"WHERE\"]\n\t\tif withCondition {\n\t\t\tif _, withSoftDelete := db.Statement.Clauses[\"soft_delete_enabled\"]; withSoftDelete {\n\t\t\t\twhereClause, _ := where.Expression.(clause.Where)\n\t\t\t\twithCondition = len(whereClause.Exprs) > 1\n\t\t\t}\n\t\t}",
+			"\t\twhere, withCondition := db.Statement.Clauses[\"WHERE\"]\n\t\t_, withSoftDelete := db.Statement.Clauses[\"soft_delete_enabled\"]\n\t\tif withCondition && withSoftDelete {\n\t\t\twhereClause, _ := where.Expression.(clause.Where)\n\t\t\twithCondition = len(whereClause.Exprs) > 1\n\t\t}"}}},
+		Mutant{Name: "n94-commit-through-a-local-committer-check", Property: "*", Rule: "NEUTRAL", Edits: []Edit{{"finisher_api.go",
+			"\tif committer, ok := db.Statement.ConnPool.(TxCommitter); ok && committer != nil && !reflect.ValueOf(committer).IsNil() {\n\t\tdb.AddError(committer.Commit())\n\t} else {\n\t\tdb.AddError(ErrInvalidTransaction)\n\t}\n\treturn db",
+			"\tcommitter, ok := db.Statement.ConnPool.(TxCommitter)\n\tif !ok || committer == nil || reflect.ValueOf(committer).IsNil() {\n\t\tdb.AddError(ErrInvalidTransaction)\n\t\treturn db\n\t}\n\tdb.AddError(committer.Commit())\n\treturn db"}}},
+		Mutant{Name: "n95-execute-scopes-loop-by-index", Property: "*", Rule: "NEUTRAL", Edits: []Edit{{"chainable_api.go",
+			"\tfor _, scope := range scopes {\n\t\tdb = scope(db)\n\t}\n\treturn db", "\tfor i := 0; i < len(scopes); i++ {\n\t\tdb = scopes[i](db)\n\t}\n\treturn db"}}},
+		Mutant{Name: "n96-withcontext-session-literal-in-a-local", Property: "*", Rule: "NEUTRAL", Edits: []Edit{{"gorm.go",
+			"\treturn db.Session(&Session{Context: ctx})", "\tcfg := Session{Context: ctx}\n\treturn db.Session(&cfg)"}}},
+		Mutant{Name: "n97-order-by-merge-copy-with-append-nil", Property: "*", Rule: "NEUTRAL", Edits: []Edit{{"clause/order_by.go",
+			"\t\tcopiedColumns := make([]OrderByColumn, len(v.Columns))\n\t\tcopy(copiedColumns, v.Columns)", "\t\tcopiedColumns := append([]OrderByColumn(nil), v.Columns...)"}}},
+		Mutant{Name: "n98-append-assoc-switch-to-if", Property: "*", Rule: "NEUTRAL", Edits: []Edit{{"association.go",
+			"\t\tswitch association.Relationship.Type {\n\t\tcase schema.HasOne, schema.BelongsTo:\n\t\t\tif len(values) > 0 {\n\t\t\t\tassociation.Error = association.Replace(values...)\n\t\t\t}\n\t\tdefault:\n\t\t\tassociation.saveAssociation( /*clear*/ false, values...)\n\t\t}",
+			"\t\tif t := association.Relationship.Type; t == schema.HasOne || t == schema.BelongsTo {\n\t\t\tif len(values) > 0 {\n\t\t\t\tassociation.Error = association.Replace(values...)\n\t\t\t}\n\t\t} else {\n\t\t\tassociation.saveAssociation( /*clear*/ false, values...)\n\t\t}"}}},
+	)
+}
